@@ -1,5 +1,6 @@
 import HcipyVerif.Model.Proto
 import HcipyVerif.Model.GridOps
+import HcipyVerif.Model.GridHeap
 
 /-! Line-protocol front end of the C11 model: an object store of grids plus the caller-owned arrays
 (see Model/GridOps.lean, `stepWorld`). -/
@@ -8,10 +9,18 @@ open HcipyVerif.Grid
 
 structure St where
   world : World := {}
+  /-- the reference model (`ref …` requests): coordinate and weight arrays held by reference -/
+  rworld : RWorld := {}
 
 def step (st : St) (toks : List String) : St × String :=
-  match stepWorld st.world toks with
-  | some (w, out) => ({ world := w }, out)
-  | none => (st, "bad-op")
+  match toks with
+  | "ref" :: rest =>
+    match stepRef st.rworld rest with
+    | some (w, out) => ({ st with rworld := w }, out)
+    | none => (st, "bad-op")
+  | _ =>
+    match stepWorld st.world toks with
+    | some (w, out) => ({ st with world := w }, out)
+    | none => (st, "bad-op")
 
 end HcipyVerif.Driver.C11
